@@ -36,28 +36,6 @@ MATCHERS = {"C06-ru-map-removal-then-swap": _m_ru_map, "C06-chain-removal-and-sw
 
 
 
-def crash_as_dev(c, part):
-    """A crash record names the configuration, the group and the step: recover the history from the groups file."""
-    import glob, json, os, re
-    m = re.match(r"(\S+) g=(\d+) (path|edge) u=(-?\d+) (?:step|k)=(\d+)", c.get("where", ""))
-    if not m:
-        return {"cfg": c.get("where", "")}
-    cfg, g, phase, u, x = m.group(1), int(m.group(2)), m.group(3), int(m.group(4)), int(m.group(5))
-    dirs = sorted(glob.glob(os.path.join(vf.BUILD, "work", "%s_%s_%d" % (PROP, part, os.getpid()))))
-    if not dirs:
-        return {"cfg": cfg}
-    with open(os.path.join(dirs[0], "groups.ndjson")) as f:
-        for i, line in enumerate(f):
-            if i == g:
-                grp = json.loads(line)
-                ops = [s["act"]["op"] for s in grp["path"]]
-                if phase == "path":
-                    return {"cfg": cfg, "hist": ops[:x], "act": {"op": ops[x] if x < len(ops) else None}}
-                e = [e for e in grp["edges"] if e["k"] == x]
-                return {"cfg": cfg, "hist": ops, "act": {"op": e[0]["act"]["op"] if e else None}}
-    return {"cfg": cfg}
-
-
 def witness_ru_vine_ids(fnd, bins):
     """Known finding C06-ru-vine-ids: RU + vine updates with identifiers different from positions.  Replays the
     two-step witness (insert a vertex with identifier 2, remove_last) and reports it only if it still fails."""
@@ -100,7 +78,7 @@ def main(tier):
             ev.write()
             return 1
         for c in crashes:
-            cd = crash_as_dev(c, part)
+            cd = pm_common.crash_as_dev(PROP, c, part)
             if fnd.match(PROP, cd, MATCHERS) is None:
                 unknown.append({"part": part, **c})
         for d in devs:
